@@ -85,7 +85,7 @@ def run(ctx):
         "theorems: WRITE accepted exactly when count = len(data), the end is within 4096 bytes and there is no hole; accepted WRITE, READ and SETATTR refine the "
         "specification 'files are byte strings of at most 4096 bytes' (content equations, end-of-file flag, zero fill on growth); invalid inode numbers refused "
         "without effect; requests touch one file; well-formedness is an invariant; per-file objects are disjoint; every handler holds the inode's lock across its body and the body's "
-        "waiting commit (table regenerated from simple/ops.go), so — model M11, any interleaving — a reply reveals only what a crash cannot undo. Correspondence on all procedures with exact status codes",
+        "waiting commit (table regenerated from simple/ops.go), so — model M14, any interleaving — a reply reveals only what a crash cannot undo. Correspondence on all procedures with exact status codes",
         "request sequences over inode numbers 0..40 and huge, handles shorter than 8 bytes, offsets/sizes/counts at 0,1,2,4094..4097,8192,2^32,2^63,2^64-k, count≠len(data), "
         "appends at the current size, lookups, commits, unsupported procedures; every reply compared exactly",
         ["64-bit offsets are read as natural numbers (exact because of the explicit SumOverflows test, which the correspondence exercises at 2^64-k)"],
